@@ -12,11 +12,15 @@
 //	req cookie=none|@<k>|raw:<esc> [t=<tamper>]
 //	                            -> served <esc-url> set=v:<esc-token>|none
 //	                             | rejected noservers|allzero|other set=...
+//	                             | env-error addr-in-use|addr-not-avail   (via=srv only: the host has no local port left
+//	                               after 8 dial attempts; nothing reached the balancer; not a statement about the code)
 //
 // <spec>   = raw | hash:<salt-esc> | aes:<keyid>:<ttl-ns> | fb(<spec>,<spec>)
 // @<k>     = the k-th most recent Set-Cookie value received in this scenario (1 = latest)
 // raw:<v>  = Cookie header "<name>=<v>"; when <v> is a canonical token aes.<keyid>.<esc plaintext> the
-//            harness sends a real AES-GCM cookie sealing that plaintext under key <keyid>
+//
+//	harness sends a real AES-GCM cookie sealing that plaintext under key <keyid>
+//
 // <tamper> = trunc:<n> | flip:<i>:<b> | hex | upper | pct
 //
 // Tokens: an AES cookie is random; it is reported as aes.<keyid>.<esc plaintext> (the harness opens it
@@ -24,20 +28,24 @@
 package main
 
 import (
+	"context"
 	"crypto/aes"
 	"crypto/cipher"
 	"crypto/rand"
 	"crypto/sha256"
 	"encoding/base64"
 	"encoding/hex"
+	"errors"
 	"fmt"
 	"io"
 	"log"
+	"net"
 	"net/http"
 	"net/http/httptest"
 	"net/url"
 	"strconv"
 	"strings"
+	"syscall"
 	"time"
 
 	"github.com/vulcand/oxy/v2/roundrobin"
@@ -247,18 +255,22 @@ type lbI interface {
 }
 
 type h struct {
-	name string
-	cur  *spec
-	ss   *roundrobin.StickySession
-	lb   lbI
-	rr   *roundrobin.RoundRobin
-	srv  *httptest.Server
-	jar  []entry
+	name   string
+	cur    *spec
+	ss     *roundrobin.StickySession
+	lb     lbI
+	rr     *roundrobin.RoundRobin
+	srv    *httptest.Server
+	client *http.Client
+	jar    []entry
 	// foreign sticky sessions by codec spec, alive for the whole scenario
 	foreign map[string]*roundrobin.StickySession
 }
 
 func (s *h) Close() {
+	if s.client != nil {
+		s.client.CloseIdleConnections() // client closes first, with RST: no TIME_WAIT on either side
+	}
 	if s.srv != nil {
 		s.srv.Close()
 	}
@@ -360,7 +372,7 @@ func hasCTL(s string) bool {
 	return false
 }
 
-func (s *h) do(cookieHdr *string) (served, rejected string, setCookie []string) {
+func (s *h) do(cookieHdr *string) (served, rejected string, setCookie []string, envErr string) {
 	if s.srv != nil && (cookieHdr == nil || !hasCTL(*cookieHdr)) {
 		req, err := http.NewRequest(http.MethodGet, s.srv.URL+"/x", nil)
 		if err != nil {
@@ -369,13 +381,17 @@ func (s *h) do(cookieHdr *string) (served, rejected string, setCookie []string) 
 		if cookieHdr != nil {
 			req.Header["Cookie"] = []string{*cookieHdr}
 		}
-		resp, err := s.srv.Client().Do(req)
+		resp, err := s.roundTrip(req)
 		if err != nil {
+			if c := addrClass(err); c != "" {
+				// the host ran out of local ports: nothing reached the balancer, and it says nothing about the code
+				return "", "", nil, "env-error " + c
+			}
 			panic(err)
 		}
 		io.Copy(io.Discard, resp.Body)
 		resp.Body.Close()
-		return resp.Header.Get("X-Served"), resp.Header.Get("X-Rejected"), resp.Header["Set-Cookie"]
+		return resp.Header.Get("X-Served"), resp.Header.Get("X-Rejected"), resp.Header["Set-Cookie"], ""
 	}
 	req := httptest.NewRequest(http.MethodGet, "http://front/x", nil)
 	if cookieHdr != nil {
@@ -384,7 +400,47 @@ func (s *h) do(cookieHdr *string) (served, rejected string, setCookie []string) 
 	rec := httptest.NewRecorder()
 	s.lb.ServeHTTP(rec, req)
 	hd := rec.Result().Header
-	return hd.Get("X-Served"), hd.Get("X-Rejected"), hd["Set-Cookie"]
+	return hd.Get("X-Served"), hd.Get("X-Rejected"), hd["Set-Cookie"], ""
+}
+
+// addrClass recognises the errors of a host whose ephemeral port range is exhausted (many checks at once,
+// TIME_WAIT sockets). They arise in connect(2), before a single byte is sent, so retrying is safe.
+func addrClass(err error) string {
+	switch {
+	case errors.Is(err, syscall.EADDRINUSE):
+		return "addr-in-use"
+	case errors.Is(err, syscall.EADDRNOTAVAIL):
+		return "addr-not-avail"
+	}
+	return ""
+}
+
+// client of the via=srv front end: ONE keep-alive connection per scenario, closed with RST (SO_LINGER 0, no
+// TIME_WAIT socket left behind); a dial that fails for lack of a local port is retried with a pause.
+func newClient() *http.Client {
+	d := &net.Dialer{Timeout: 5 * time.Second}
+	return &http.Client{Transport: &http.Transport{
+		MaxIdleConns: 1, MaxIdleConnsPerHost: 1, MaxConnsPerHost: 1, IdleConnTimeout: time.Minute,
+		DialContext: func(ctx context.Context, network, addr string) (net.Conn, error) {
+			c, err := d.DialContext(ctx, network, addr)
+			if tc, ok := c.(*net.TCPConn); ok && err == nil {
+				_ = tc.SetLinger(0)
+			}
+			return c, err
+		},
+	}}
+}
+
+func (s *h) roundTrip(req *http.Request) (*http.Response, error) {
+	var resp *http.Response
+	var err error
+	for try := 0; try < 8; try++ {
+		if resp, err = s.client.Do(req); err == nil || addrClass(err) == "" {
+			return resp, err
+		}
+		time.Sleep(time.Duration(50*(try+1)) * time.Millisecond)
+	}
+	return resp, err
 }
 
 // takeCookie reads the Set-Cookie lines a client received, stores the pair's value in the jar and returns its token.
@@ -580,7 +636,10 @@ func (s *h) Op(f []string) string {
 			l := s.name + "=" + val.wire
 			hdr = &l
 		}
-		served, rejected, sc := s.do(hdr)
+		served, rejected, sc, envErr := s.do(hdr)
+		if envErr != "" {
+			return envErr
+		}
 		set, errs := s.takeCookie(sc, s.cur)
 		if errs != "" {
 			return errs
@@ -654,6 +713,7 @@ func main() {
 		}
 		if v, _ := hx.KV(cfg, "via"); v == "srv" {
 			s.srv = hx.NewServer(s.lb)
+			s.client = newClient()
 		}
 		return s, "ok"
 	})
